@@ -32,4 +32,53 @@ CHECKS = {
         "pyparsing (ordered choice, greedy repetition without back-tracking, white-space skipping, expandtabs, parseAll) is modelled and validated "
         "differentially, not proved; urllib unquote as in LiquerModel/Text.lean."),
  ),
+ "C07": dict(
+  text=("Spec-level contract theorems about the reference file system (read-back, presence of ancestors, exactly-once listing, removal, frame, "
+        "tree invariant over every well-formed history) and the refinement theorem mem_refines (MemoryStore model = reference model on every "
+        "well-formed history, incl. recursive removal); proxy refinement. The FileStore model is tied to the reference model by correspondence "
+        "only (file_refines is statement-only). All 12 stacks (memory/file x plain, proxy, indexer, overlay(empty), mount, global default) are "
+        "compared with the reference model after every operation of generated well-formed histories; the oracle evaluates the contract clauses "
+        "and pairwise agreement on the implementation."),
+  note=("Trusted: Lean kernel; hand-written mirrors LiquerModel/StoreMem.lean, StoreFile.lean, StoreProxy.lean (tied by correspondence); md5 modelled as "
+        "an injective function; JSON metadata text not modelled; POSIX directory operations at the granularity of the tree model; partial: file_refines "
+        "rests on correspondence."),
+ ),
+ "C17": dict(
+  text=("(a) read-only view: every mutating operation returns the read-only error and leaves the state unchanged, reads are forwarded — for every "
+        "history and any underlying store model; a generated obligation proves every mutating Store method found in the live classes is overridden "
+        "by ReadOnlyStore. (b) containment: for every root and key, keyOK implies path and metadata path lie within the root, not keyOK implies every "
+        "FileStore operation is refused; after any history no path outside the root changed. Exhaustive key enumeration (<=4 components from "
+        "{a,.,..,'',__metadata__,b.txt}, with/without leading '/') for every operation directly, through a mount and through -R queries in a sandbox."),
+  note=("Trusted: Lean kernel; pathlib join / OS resolution as modelled in LiquerModel/StoreFile.lean (pathOf, within); harness sandbox wrapper; "
+        "extract.py's ast-based list of mutating methods."),
+ ),
+ "C15": dict(
+  text=("overlay_fallback_immutable for every operation, state and pair of store models (lifted to histories); overlay_reads / overlay_refines_spec: "
+        "every read equals the shadow/mask specification and every write is 'most recent write or removal wins' for every well-formed history, under "
+        "an invariant proved initial and preserved. Correspondence: all fall-back contents over a 5-key universe x generated histories with memory/file "
+        "stores in either role, full snapshot of the fall-back after every operation."),
+  note=("Trusted: Lean kernel; LiquerModel/StoreOverlay.lean mirror of OverlayStore (as fixed by the D5a-e commits), part stores modelled by memOps/specOps."),
+ ),
+ "C14": dict(
+  text=("route_exclusive (any table), mount_union_* (keys, listdir, contains, is_dir, metadata key as the re-prefixed union, for every table satisfying "
+        "tableWF, any number of mounts), write exclusivity/frame, to_root_key for owned keys. Two full statements are false for the code and kept "
+        "statement-only with decide-refutations (known findings D7f, D7g). Correspondence: all mount tables <= 3 mounts over {a,a/b,c,c/d} x "
+        "{memory,file} x default {none,empty,populated} with generated histories; oracle = union of the parts."),
+  note=("Trusted: Lean kernel; LiquerModel/StoreMount.lean mirror of MountPointStore/PrefixStore (as fixed by the D7a-e commits); partial: "
+        "mount_keys_complete and to_root_key_reaches hold only under the stated hypotheses."),
+ ),
+ "C11": dict(
+  text=("Dispatch and framing are proved: c11_dispatch over the regenerated registry (identifier and qualified name select the same type; default "
+        "extension readable; recorded identifier selects a decoder for every writable+readable extension), c11_key_roundtrip (JSON key escaping for "
+        "every string), c11_djson (line-oriented dictionary framing for any dictionary under the element law). The codecs themselves (json, pickle, "
+        "pandas/pyarrow) enter as explicit CodecLaw hypotheses and are validated differentially only (partial)."),
+  note=("Trusted: Lean kernel; extract.py probing of writes/reads sets on sample values; third-party codecs (hypotheses of the theorems)."),
+ ),
+ "C20": dict(
+  text=("c20_gate for all enable/disable/register histories; c20_wire (unquote . quote = id for every text, from the C03 lemmas); serve never 2xx on "
+        "failure; c20_routes by decide over the regenerated route table and RemoteStore request table; endpoint histories refine library calls under "
+        "ReadOnlyLaw. Correspondence through the Flask test client (client-side quoting) for queries, store/cache endpoint histories, all gate "
+        "histories <= 5 and RemoteStore against a served store. Partial: Flask/werkzeug/WSGI are third-party parameters."),
+  note=("Trusted: Lean kernel; extract.py's ast reading of the view functions; Flask test client as the transport."),
+ ),
 }
